@@ -233,6 +233,20 @@ S_big1 == <<57, 48, 48, 55, 49, 57, 57, 50, 53, 52, 55, 52, 48, 57, 57, 51>>    
 UBig1 == Unt(S_big1)
 BigItems == {IBig1, DBig0, UBig1}
 BigPartners == {I1, D1, Db1, DbNaN}
+(* BinItems: hexBinary / base64Binary values of 0..4 zero octets: proper prefixes of one another, with
+   text lengths that do not follow the octet lengths (AA== and AAA= have four characters each).
+   Partners: every binary value of both types (across the types: XPTY0004). *)
+HZ0 == Hex(<<>>, <<>>)     \* xs:hexBinary("")
+XZ0 == B64(<<>>, <<>>)     \* xs:base64Binary("")
+HZ1 == Hex(<<0>>, <<48, 48>>)     \* xs:hexBinary("00")
+XZ1 == B64(<<0>>, <<65, 65, 61, 61>>)     \* xs:base64Binary("AA==")
+HZ2 == Hex(<<0, 0>>, <<48, 48, 48, 48>>)     \* xs:hexBinary("0000")
+XZ2 == B64(<<0, 0>>, <<65, 65, 65, 61>>)     \* xs:base64Binary("AAA=")
+HZ3 == Hex(<<0, 0, 0>>, <<48, 48, 48, 48, 48, 48>>)     \* xs:hexBinary("000000")
+XZ3 == B64(<<0, 0, 0>>, <<65, 65, 65, 65>>)     \* xs:base64Binary("AAAA")
+HZ4 == Hex(<<0, 0, 0, 0>>, <<48, 48, 48, 48, 48, 48, 48, 48>>)     \* xs:hexBinary("00000000")
+XZ4 == B64(<<0, 0, 0, 0>>, <<65, 65, 65, 65, 65, 65, 61, 61>>)     \* xs:base64Binary("AAAAAA==")
+BinItems == {HZ0, XZ0, HZ1, XZ1, HZ2, XZ2, HZ3, XZ3, HZ4, XZ4}
 TzItems == {DTzZ, DTzP30, DTzM30, DTzM30b, DTzM01, DTzP530, DTzM530, DTzP14, DTzM14, DzZ, DzP30, DzM30, DzM01, DzP530, DzM530, DzP14, DzM14, TzZ, TzP30, TzM30, TzM30b, TzM01, TzP530, TzM530, TzP14, TzM14,
             GgyN, GgyZ, GgyM30, GgyP30, GgymN, GgymZ, GgymM30, GgymP30, GgmN, GgmZ, GgmM30, GgmP30, GgmdN, GgmdZ, GgmdM30, GgmdP30, GgdN, GgdZ, GgdM30, GgdP30}
 WsUntypeds == {W_1_sp, W_1_tab, W_1_cr, W_1_lf, W_1_mix, W_true_sp, W_true_tab, W_true_cr, W_true_lf, W_true_mix, W_date_mix, W_P1M_mix, W_0A_mix, W_abc_mix}
@@ -240,11 +254,12 @@ WsNodes == {NWtrue, NW1, NWattr}
 WsItems == WsUntypeds \cup WsNodes
 WsPartners == {I1, D1, F1, Db1, Bool(TRUE), Bool(FALSE), Date1, DT1, Time1, Y1M, T0, U1M, H0A, X0A, Uri(S_abc), QNa,
                Str(S_1), Str(S_abc), Unt(S_1), Unt(S_true)}
-ExtAtoms == TzItems \cup WsUntypeds \cup BigItems
-ExtItems == TzItems \cup WsItems \cup BigItems
+ExtAtoms == TzItems \cup WsUntypeds \cup BigItems \cup BinItems
+ExtItems == TzItems \cup WsItems \cup BigItems \cup BinItems
 ImplicitTZ == 300                        \* +05:00
 Partner(a, b) ==
   /\ (a \in TzItems \/ b \in TzItems) => a.t = b.t
+  /\ (a \in BinItems \/ b \in BinItems) => (a.t \in {"hex", "b64"} /\ b.t \in {"hex", "b64"})
   /\ (a \in BigItems) => b \in BigItems \cup BigPartners
   /\ (b \in BigItems) => a \in BigItems \cup BigPartners
   /\ (a \in WsItems) => b \in WsPartners
@@ -254,7 +269,7 @@ AllAtoms == Atoms \cup ExtAtoms
 
 (* items that occur in sequences of length >= 2 *)
 SeqItems == {I1, I2, DbNaN, Unt(S_1), Unt(S_abc), Str(S_abc), Bool(TRUE), N1}
-SeqItems3 == {I1, I2, Unt(S_1), Unt(S_abc), Str(S_abc), Bool(TRUE)}
+SeqItems3 == {I1, I2, Unt(S_1), Unt(S_abc), Str(S_abc)}
 
 ---------------------------------------------------------------------------
 (* Effective boolean value, XPath 2.0 / 3.1 section 2.4.3 (= fn:boolean, F&O 15.1.1):
@@ -294,10 +309,13 @@ OrOut(a, b, ordered) ==
 NotOut(a) == IF a = "TRUE" THEN "FALSE" ELSE IF a = "FALSE" THEN "TRUE" ELSE a      \* fn:not
 IfOut(a)  == IF a = "TRUE" THEN "THEN" ELSE IF a = "FALSE" THEN "ELSE" ELSE a       \* if (S) then .. else ..
 
-Cfgs == {"v20", "v30", "v31", "c20", "c31", "c10"}
+Cfgs == {"v20", "v30", "v31", "c20", "c31", "c10", "u31"}
 (* v20 v30 v31: the XPath 2.0 / 3.0 / 3.1 processors; c20 c31: the same with XPath 1.0 compatibility
    mode; c10: an XPath 1.0 processor (its comparison and logic rules are the compatibility rules) *)
+(* u31: the 3.1 processor with NO implicit timezone in the dynamic context: the implementation-defined
+   implicit timezone of the library is then UTC; replayed for operands with a date/time item only *)
 IsCompat(c) == c \in {"c20", "c31", "c10"}
+TZOf(c) == IF c = "u31" THEN 0 ELSE ImplicitTZ
 
 ---------------------------------------------------------------------------
 (* Laws of the tables (state independent; evaluated once by TLC as ASSUME in Logic.tla) *)
